@@ -52,7 +52,7 @@ def import_xdoctest():
 # trace injector: asynchronous faults at the k-th in-scope line event
 # ----------------------------------------------------------------------------
 
-PEER_SCOPE = {'op', 'emit', 'emitop', 'emitnoeol', 'abg', 'deco', '_emit_text', 'sayval', 'say', 'aop', '_write', 'point', 'names', 'modglobal',
+PEER_SCOPE = {'op', 'emit', 'emitop', 'emitnoeol', 'abg', 'deco', '_emit_text', 'sayval', 'writeto', 'say', 'aop', '_write', 'point', 'names', 'modglobal',
               '__aenter__', '__aexit__', '__anext__', '_raise_via'}
 
 
@@ -559,6 +559,12 @@ def execute(scn, root, count_only=False):
     write_world(files, pkgroot)
     env = scn.get('env', {})
     seams.set_environment(env.get('environ', {}), env.get('argv', ['xdsim']))
+    if env.get('tracebacklimit') is not None:
+        sys.tracebacklimit = int(env['tracebacklimit'])     # a process-wide setting of the host program
+    from xdoctest.utils import util_str as _ustr
+    from xdoctest import global_state as _gstate
+    _ustr.NO_COLOR = bool(env.get('no_color'))              # as if NO_COLOR had been set when xdoctest was imported
+    _gstate.DEBUG_DOCTEST = bool(env.get('debug_doctest'))  # ... or XDOCTEST_DEBUG_DOCTEST
     if env.get('no_pygments'):
         # the optional colouring dependency is not installed in this environment
         for name in [n for n in sys.modules if n == 'pygments' or n.startswith('pygments.')]:
@@ -584,6 +590,7 @@ def execute(scn, root, count_only=False):
     getattr(directive, '_MODNAME_EXISTS_CACHE', {}).clear()
     ST.term = SimStream('stdout')
     ST.termerr = SimStream('stderr')
+    ST.term.ascii_only = bool(env.get('ascii_terminal'))
     real_out, real_err = sys.stdout, sys.stderr
     sys.stdout = ST.term
     sys.stderr = ST.termerr
@@ -595,6 +602,7 @@ def execute(scn, root, count_only=False):
             res = {'op': idx, 'kind': op['op'], 'how': None, 'exc': None, 'value': None}
             snap0 = Snap()
             term0 = ST.term.tell()
+            il_op0 = len(PEER.import_log)
             try:
                 res['value'] = run_op(op, idx)
                 res['how'] = 'returned'
@@ -606,6 +614,7 @@ def execute(scn, root, count_only=False):
                 res['tb'] = LOG.norm(''.join(traceback.format_exception(type(ex), ex, ex.__traceback__)))[-3000:]
             res['snap0'] = snap0
             res['snap1'] = Snap()
+            res['import_log'] = PEER.import_log[il_op0:]
             try:
                 ST.term.seek(term0)
                 res['term'] = ST.term.read()
@@ -716,7 +725,9 @@ def run_op(op, idx):
         config['colored'] = False
         for k_, v_ in op.get('config', {}).items():
             config[k_] = copy.deepcopy(v_)
-        rs = xd.doctest_module(abspath_of(op['target']), command=op.get('command', 'all'), argv=[],
+        # (argv=None: the runner looks at the host program's own sys.argv for whatever was not given explicitly)
+        rs = xd.doctest_module(abspath_of(op['target']), command=op.get('command', 'all'),
+                               argv=None if op.get('argv_from_process') else [],
                                style=op.get('style', 'auto'), verbose=op.get('verbose', 0), config=config,
                                durations=op.get('durations'), analysis=op.get('analysis', 'auto'))
         out = {k_: v_ for k_, v_ in rs.items() if k_.startswith('n_') or k_ == 'action'}
